@@ -1,3 +1,4 @@
 import MpfVerif.DriverLoop
-/-! Driver of the C17 model (stub until the model exists): answers bad-op to everything. -/
-def main : IO UInt32 := MpfVerif.runDriver (fun (s : Unit) _ => (s, "bad-op")) ()
+import MpfVerif.Model.Show
+/-! Driver of the C17 model (running show). -/
+def main : IO UInt32 := MpfVerif.runDriver MpfVerif.Show.driverStep MpfVerif.Show.init
